@@ -331,6 +331,89 @@ def run {υ : Type} (cfg : Cfg) (h : Hooks υ) (cycles : List CycleIn) (u0 : υ)
       let ret := { r.1 with w := emit .returned r.1.w }
       { ret := ret, fin := release cfg h false ret, err := some x }
 
+/-! ## the associative reduce node (`reduce_node.cpp`): combiner graphs at the positions of a heap-shaped tree
+
+`ReduceNodeStorage::combiners` (heap position -> `CombinerEntry`, two banks) is the same kind of slot table as the
+map node's entries; a combiner of bank `b` at heap position `p` lives in slot `2 * p + b` of the `MapSt` below, so
+that the slot scans visit the current generation in ascending position.  WHICH positions a structural change
+creates / retires (`resolve_aggregate`, capacity growth) is an input of this model (`RedIn`); the driver derives it
+with the C11 model of the tree (`Model/Reduce.lean`).
+
+* `rebuild_structure`: phase 2 starts the newly created combiners in reverse creation order
+  (`child.start`); a throwing start unwinds through the rollback guard, which resets (stops, swallowing, and
+  destroys) the combiners created in this rebuild, in creation order, and puts the set-aside ones back — in the
+  model they never left their slots; phase 3 then stops (`stop_combiner_noexcept`, swallowing) the combiners that
+  are no longer needed, and, after a capacity growth, every combiner of the old generation.
+* the evaluation loop: due combiners deepest-first; a stopped or missing one is skipped.
+* `reduce_node_stop`: every live combiner gets its stop attempt, the first error is recorded and rethrown once the
+  node's own state is reset = `mapStop` with the recorder.
+* `~ReduceNodeStorage` = `destroyAll`.
+A combiner instance has no key: it is named `⟨ordinal, 1⟩`, `ordinal` = the order of its start attempt in the run. -/
+
+structure RedSt (υ : Type) where
+  m : MapSt υ
+  next : Nat := 0                  -- combiner graphs whose start was attempted so far
+
+structure RedIn where
+  active : Bool := true            -- the reduce node is evaluated in this cycle
+  create : List Nat := []          -- slots of the combiners created by this rebuild, in START order
+  retire : List Nat := []          -- slots stopped by phase 3, in stop order (set-aside ones, then the old generation)
+  ticked : List Nat := []          -- slots of the due combiners, evaluation order
+
+/-- phase 2: `child.start` for the created combiners; returns the slots started so far, latest first -/
+def redStartList {υ : Type} (cfg : Cfg) (h : Hooks υ) : List Nat → RedSt υ → List Nat → RedSt υ × List Nat × Option String
+  | [], m, acc => (m, acc, none)
+  | s :: rest, m, acc =>
+    match m.m.ent s with
+    | some _ => redStartList cfg h rest m acc            -- `entry != nullptr`: nothing is created there
+    | none =>
+      let r := createEntry cfg h s (Int.ofNat (m.next + 1)) m.m
+      match r.2 with
+      | none => redStartList cfg h rest { m := r.1, next := m.next + 1 } (s :: acc)
+      | some x => ({ m := r.1, next := m.next + 1 }, acc, some x)
+
+/-- `rebuild_structure` (lifecycle part) -/
+def redRebuild {υ : Type} (cfg : Cfg) (h : Hooks υ) (I : RedIn) (m : RedSt υ) : RedSt υ × Option String :=
+  let r := redStartList cfg h I.create m []
+  match r.2.2 with
+  | some x => ({ r.1 with m := r.2.1.foldl (destroySlot cfg h) r.1.m }, some x)     -- the rollback guard
+  | none => ({ r.1 with m := I.retire.foldl (destroySlot cfg h) r.1.m }, none)      -- phase 3
+
+/-- `reduce_evaluate` -/
+def redCycle {υ : Type} (cfg : Cfg) (h : Hooks υ) (I : RedIn) (m : RedSt υ) : RedSt υ × Option String :=
+  if !I.active then (m, none) else
+  let r := redRebuild cfg h I m
+  match r.2 with
+  | some x => (r.1, some x)
+  | none =>
+    let q := evalSlots cfg h I.ticked r.1.m
+    ({ r.1 with m := q.1 }, q.2)
+
+def redRunCycles {υ : Type} (cfg : Cfg) (h : Hooks υ) : List RedIn → Nat → RedSt υ → RedSt υ × Option String
+  | [], _, m => (m, none)
+  | I :: rest, k, m =>
+    let r := redCycle cfg h I { m with m := { m.m with w := emit (.cyc k) m.m.w } }
+    match r.2 with
+    | none => redRunCycles cfg h rest (k + 1) r.1
+    | some x => (r.1, some x)
+
+/-- the run of a graph whose dynamic parent is a reduce node (`run_storage` + release, as `run`) -/
+def redRun {υ : Type} (cfg : Cfg) (h : Hooks υ) (cycles : List RedIn) (u0 : υ) : RunRes υ :=
+  let r := redRunCycles cfg h cycles 0 { m := { w := { u := u0 } } }
+  match r.2 with
+  | none =>
+    let s := mapStop cfg h { r.1.m with w := emit .stopping r.1.m.w }
+    let ret := { s.1 with w := emit .returned s.1.w }
+    { ret := ret, fin := release cfg h true ret, err := s.2 }
+  | some x =>
+    if cfg.cleanup then
+      let s := mapStop cfg h { r.1.m with w := emit .stopping r.1.m.w }
+      let ret := { s.1 with w := emit .returned s.1.w }
+      { ret := ret, fin := release cfg h true ret, err := some x }
+    else
+      let ret := { r.1.m with w := emit .returned r.1.m.w }
+      { ret := ret, fin := release cfg h false ret, err := some x }
+
 /-! ## the switch node (one active child, two graph slots) -/
 
 structure SwSt (υ : Type) where
